@@ -81,7 +81,8 @@ void PolicyBase::open( bool from_reopen)
    const auto  filename = filename::Builder::filename( mFilenameDefinition);
 
 
-   mFile.open( filename, std::ios_base::out | std::ios_base::ate);
+   mFile.open( filename,
+      std::ios_base::out | std::ios_base::app | std::ios_base::ate);
 
    if (!mFile || !mFile.is_open())
    {
@@ -94,7 +95,8 @@ void PolicyBase::open( bool from_reopen)
          common::FileOperations::mkdir( path);
 
          // try again
-         mFile.open( filename, std::ios_base::out | std::ios_base::ate);
+         mFile.open( filename,
+            std::ios_base::out | std::ios_base::app | std::ios_base::ate);
       } // end if
    } // end if
 
